@@ -439,6 +439,15 @@ def deserializeFunction(cls, __code__, __name__, __defaults__, __closure__, refs
     return out
 
 
+def _defaultName(expr):
+    """The name UserFcn assigns on its own (the expression text or the function's name); not a user-given name."""
+    if isinstance(expr, basestring):
+        return expr
+    if isinstance(expr, types.FunctionType) and expr.__name__ != "<lambda>":
+        return expr.__name__
+    return None
+
+
 def serializable(fcn):
     """Create a serializable version of fcn (histogrammar.util.UserFcn)
 
@@ -483,7 +492,7 @@ def named(name, fcn):
     Unlike the histogrammar.util.UserFcn constructor, this function avoids duplication (doubly wrapped objects) and
     commutes with histogrammar.util.cached and histogrammar.util.serializable (they can be applied in any order).
     """
-    if isinstance(fcn, UserFcn) and fcn.name is not None:
+    if isinstance(fcn, UserFcn) and fcn.name is not None and fcn.name != _defaultName(fcn.expr):
         raise ValueError(f"two names applied to the same function: {fcn.name} and {name}")
     if isinstance(fcn, CachedFcn):
         return CachedFcn(fcn.expr, name)
